@@ -354,3 +354,45 @@ def run(prog, chk):
     from . import c02
     c02.text_field_rules(prog, chk, "R6", "R7")
     c02.column_advance_rule(prog, chk, "R8")
+
+    r9 = chk.rule("R9-validation-failure-not-lost", "once cif_validate_cif11_characters has refused a code, name or value, the writing "
+                  "function does not return CIF_OK / CIF_TRAVERSE_CONTINUE: the refusal is not overwritten by a later, successful "
+                  "validation in the same function (a loop over several names)", primary=False, floor=3)
+    n9 = 0
+    for fn in prog.all_functions():
+        if fn.unit != "ciffile.c" or not fn.calls_to(VALIDATOR) or "int" not in (fn.ret or ""):
+            continue
+        lost = []
+
+        class _L(Interp):
+            def initial_ts(self):
+                return False
+
+            def call(self, st, n, argvals):
+                if n.get("callee") == VALIDATOR:
+                    return [(st, av_const(0)), (st.with_ts(True), AV(1, None))]
+                return [(st, None)]
+
+            def on_return(self, st, node, av):
+                if st.ts and (av is None or av.contains(0)):
+                    lost.append((node, st, av))
+        it = _L(prog, fn)
+        keep = {p_["name"] for p_ in fn.params} | {l["name"] for l in fn.locals if l["t"].strip() in ("int", "int32_t")} | {"_error_code"}
+        it.tracked = {q for q in it.tracked if q in keep}
+        it.cap = 4000
+        it.run()
+        n9 += 1
+        key = "%s" % fn.name
+        if it.overflow:
+            r9.unproved(key, "state cap reached")
+        elif lost:
+            node, st, av = lost[0]
+            r9.violation(fn.file, fn.name, node.get("l"), "validation-failure-lost:%s" % fn.name,
+                         "after cif_validate_cif11_characters refused a string, %s can still return %s at L%s: the refusal was "
+                         "overwritten (a later name validated), the offending name is skipped and cif_write reports success with "
+                         "content dropped" % (fn.name, "0" if av is not None else "an unknown value", node.get("l")),
+                         path=["L%s" % x for x in st.trail_lines()][-25:])
+        else:
+            r9.ok(key, "%d exits: a refusal is always returned as a failure" % len(it.exits))
+    if n9 < 3:
+        raise Broken("fewer than 3 int functions of ciffile.c call the CIF 1.1 validator")
